@@ -766,8 +766,9 @@ func decodeMemberAssignmentV0(buf *bytes.Buffer) (map[string][]int32, string) {
 		return topics, "assignment_topic_count"
 	}
 
+	// The count comes off the wire: never size the map beyond what the remaining bytes could describe
 	topicCount := int(numTopics)
-	topics = make(map[string][]int32, numTopics)
+	topics = make(map[string][]int32, max(0, min(topicCount, buf.Len())))
 	for i := 0; i < topicCount; i++ {
 		topicName, err := readString(buf)
 		if err != nil {
@@ -778,15 +779,20 @@ func decodeMemberAssignmentV0(buf *bytes.Buffer) (map[string][]int32, string) {
 		if err != nil {
 			return topics, "assignment_partition_count"
 		}
+		if numPartitions < 0 {
+			return topics, "assignment_partition_count"
+		}
+		// Each partition ID is 4 bytes: never allocate beyond what the remaining bytes could hold
 		partitionCount := int(numPartitions)
-		topics[topicName] = make([]int32, numPartitions)
+		partitions := make([]int32, 0, min(partitionCount, buf.Len()/4))
 		for j := 0; j < partitionCount; j++ {
 			err = binary.Read(buf, binary.BigEndian, &partitionID)
 			if err != nil {
 				return topics, "assignment_partition_id"
 			}
-			topics[topicName][j] = partitionID
+			partitions = append(partitions, partitionID)
 		}
+		topics[topicName] = partitions
 	}
 
 	err = binary.Read(buf, binary.BigEndian, &userDataLen)
